@@ -34,7 +34,8 @@ pub fn spec(id: &str) -> Spec {
             p.w_transfer = 6;
             p.w_conf = 10;
             p.priority_pm = 300;
-            Spec { profile: p, quick_runs: quick, thorough_runs: thorough, nontrivial: |s, _| g(s, "leaders_elected") >= 3,
+            p.election_adversary_pm = 500;
+            Spec { profile: p, quick_runs: 60_000, thorough_runs: thorough, nontrivial: |s, _| g(s, "leaders_elected") >= 3,
                 rule: ">= 3 leaders elected (distinct terms) in the run" }
         }
         "C03" => Spec { profile: p, quick_runs: quick, thorough_runs: thorough,
